@@ -116,8 +116,16 @@ func refPasteGraphCyclic(lines []refLine) bool {
 func VerifH_PasteEqualsInline() {
 	k := verifrt.Bound("K")
 	menu := verifMenuMacro
-	if verifrt.Bound("MENU") == 1 {
+	if verifrt.Bound("MENU") >= 1 {
 		menu = verifMenuMacroSmall
+	}
+	if verifrt.Bound("MENU") == 3 {
+		// schema-bearing macro bodies (real schema library): ENUM rules and object types inside macros
+		menu = []int{tMacro, tPaste, tEnum, tTypeObj, tGetPath, tRespRef}
+	}
+	if verifrt.Bound("MENU") == 2 {
+		verifLetters = 3 // three macro names: cycles behind a macro that is not on them
+		menu = []int{tMacro, tPaste}
 	}
 	text, lines := verifDocLines(menu, k, true)
 	verifrt.Note("doc", text)
@@ -183,4 +191,72 @@ func VerifH_PasteEqualsInline() {
 	}
 	verifrt.Reach("C07.accepted-with-paste", hasPaste)
 	verifrt.Reach("C07.accepted", true)
+}
+
+// VerifH_PasteGraph (C07c, C01): every paste graph over M macros. Macro i
+// either pastes another macro (symbolic target, any of the M names, itself
+// included) or holds a plain method; a final top-level PASTE starts from a
+// symbolic macro. Every graph with a cycle - reachable from the top-level
+// PASTE or not - must be rejected with a diagnostic within the call-depth
+// budget; every acyclic graph must be accepted and equal to its inlined form.
+func VerifH_PasteGraph() {
+	m := verifrt.Bound("M")
+	names := []string{"a", "b", "c", "d"}[:m]
+	var lines []refLine
+	lines = append(lines, refLine{t: tJsight, parent: -1})
+	// the top-level PASTE comes first (use before definition is allowed); written after the
+	// macros it would be swallowed by the last macro's implicit body
+	start := verifrt.Choice("start", m)
+	lines = append(lines, refLine{t: tPaste, letter: names[start], parent: -1})
+	target := make([]int, m) // -1: leaf
+	for i := 0; i < m; i++ {
+		lines = append(lines, refLine{t: tMacro, letter: names[i], parent: -1})
+		c := verifrt.Choice("body", m+1)
+		if c == m {
+			target[i] = -1
+			lines = append(lines, refLine{t: tGetPath, letter: names[i], parent: -1})
+		} else {
+			target[i] = c
+			lines = append(lines, refLine{t: tPaste, letter: names[c], parent: -1})
+		}
+	}
+	text := verifRender(lines)
+	verifrt.Note("doc", text)
+	core, je := verifRun(text)
+	// reference: any cycle in the functional graph
+	cyclic := false
+	for i := 0; i < m; i++ {
+		x := i
+		for step := 0; step <= m && x >= 0; step++ {
+			x = target[x]
+			if x == i {
+				cyclic = true
+			}
+		}
+	}
+	if cyclic {
+		verifrt.Assert("C07.graph.cycle-rejected", je != nil)
+		verifrt.Reach("C07.graph.cyclic", true)
+		return
+	}
+	verifrt.Assert("C07.graph.acyclic-accepted", je == nil)
+	if je != nil {
+		verifrt.Note("error", je.Msg)
+		return
+	}
+	if !refResolveLines(lines) {
+		verifrt.Assert("C07.graph.resolvable", false)
+		return
+	}
+	inl, ok := refInline(lines)
+	verifrt.Assert("C07.graph.expandable", ok)
+	if !ok {
+		return
+	}
+	core2, je2 := verifRun(verifRender(inl))
+	verifrt.Assert("C07.graph.inlined-accepted", je2 == nil)
+	if je2 == nil {
+		verifrt.Assert("C07.graph.same-catalog", verifSameSig(verifSig(core.catalog), verifSig(core2.catalog)))
+	}
+	verifrt.Reach("C07.graph.acyclic", true)
 }
